@@ -2,7 +2,7 @@
 import json, os, sys, time
 from .common import *
 from .engine import *
-from . import cratebuild, corpus_ctor, corpus_extra, corpus_serde, corpus_arb, verdict, corpus_verdict, corpus_c05, audit, corpus_nostd, corpus_spelling
+from . import cratebuild, corpus_ctor, corpus_extra, corpus_serde, corpus_arb, verdict, corpus_verdict, corpus_c05, audit, corpus_nostd, corpus_spelling, corpus_random
 
 ASSUME_COMMON = ["lowercase/uppercase meaning = this toolchain's str::to_lowercase/to_uppercase",
                  "NaN vs bound validators: either verdict accepted (DESIGN section 3)",
@@ -12,7 +12,8 @@ ASSUME_COMMON = ["lowercase/uppercase meaning = this toolchain's str::to_lowerca
 
 def ctor_decls(tier, seed):
     return (corpus_ctor.build(tier, seed) + corpus_extra.build_perm(tier, seed) + corpus_extra.build_message(tier, seed)
-            + corpus_extra.build_finite(tier, seed) + corpus_serde.build(tier, seed) + corpus_arb.build(tier, seed))
+            + corpus_extra.build_finite(tier, seed) + corpus_serde.build(tier, seed) + corpus_arb.build(tier, seed)
+            + corpus_random.build(tier, seed))
 
 
 def fam_of(r):
@@ -185,11 +186,12 @@ def check_c16(tier, seed):
         for k in ("LenCharMinViolated", "LenCharMaxViolated"):
             res.guard("relation_parsed[string,%s]" % k, 1 if ("string", k) in cells else 0, 1)
         res.guard("fromstr_embeds", sum_guard(reports, "fromstr_embeds"), 10)
+        res.guard("serde_embeds", sum_guard(reports, "serde_embeds"), 10)
     return ctor_flow("C16", tier, seed,
                      "message corpus: one single-validator declaration per (family x bound kind x bound value of both signs and several magnitudes x literal|const spelling); "
                      "the Display text of the error obtained just outside the bound must name the type and the bound ({:#?} rendering) and contain exactly one relation phrase "
                      "from a closed dictionary; that relation is evaluated at bound-1/bound/bound+1 (ints, char counts) or next_down/bound/next_up (floats) and compared with "
-                     "try_new at those points; FromStr errors must embed the text (serde: see C04 evidence). A case is a (declaration, variant:relation) pair.", guards,
+                     "try_new at those points; FromStr errors and serde errors (JSON, RON, MessagePack) of declarations deriving them must embed the text verbatim. A case is a (declaration, variant:relation) pair.", guards,
                      ["a message without a recognisable relation phrase is INCONCLUSIVE, not a violation"])
 
 
